@@ -52,7 +52,7 @@ func c03CheckTrace(path string) (res c03TraceResult, err error) {
 	defer f.Close()
 	res.manifestFirst = -1
 	fdPath := map[int]string{}
-	pendingCall := map[string]string{} // pid -> "name(args" of an unfinished call
+	pendingCall := map[string]string{}  // pid -> "name(args" of an unfinished call
 	fsyncStartMax := map[string]int64{} // pid -> maxWritten when its journal fsync started
 	var maxWritten, synced int64
 	manifestRenamed := false
